@@ -253,7 +253,8 @@ PROPERTY = Property(
         Clause("forced_perm_exhaustive", check_forced_enum, enumerate=enum_forced, budget={"quick": 0, "thorough": 0}),
         Clause("forced_perm_generated", check_forced_gen, strategy=forced_cases,
                budget={"quick": 400, "thorough": 6000}),
-        Clause("arbitrary", check_arbitrary, strategy=arbitrary_cases, budget={"quick": 600, "thorough": 8000}),
+        Clause("arbitrary", check_arbitrary, strategy=arbitrary_cases, budget={"quick": 600, "thorough": 8000},
+               fuzz={"runs": 4000, "procs": 4}),
     ],
     assumptions=[
         "numpy-quaternion dtype conversions (as_quat_array/as_float_array) are trusted",
